@@ -51,6 +51,8 @@ type Scenario struct {
 	Monitors     []func(w *World)
 	Final        []func(w *World, x *vrt.Exec)
 	NoDrainClose bool
+	// NoCloseAllowed: no endpoint may shut down by itself (keepalive off).
+	NoCloseAllowed bool
 	// Owns says which cross-cutting events are violations in this
 	// scenario's check ("panic", "leak"); others are counted as foreign.
 	Owns map[string]bool
@@ -352,4 +354,133 @@ func init() {
 		sc.Cfg.Horizon = 60 * time.Second
 		return sc
 	}
+}
+
+// ---------------------------------------------------------------- C09: window
+
+func init() {
+	// fullwindow: the server->client direction (ACKs) is held in flight
+	// after the handshake until `hold`; the client issues N+2 sends.
+	builders["fullwindow"] = func(name string, p params) *Scenario {
+		sc := &Scenario{}
+		common(sc, p)
+		n := int(sc.N)
+		extra := p.int("extra", 2)
+		hold := p.dur("hold", 2500*time.Millisecond)
+		sc.ClientScripts = [][]Op{sends('c', n+extra, -1)}
+		sc.ServerScripts = [][]Op{recvs(n + extra)}
+		sc.PreActions = func(w *World) {
+			if w.handshakeDone() && w.extra["held"] == nil {
+				w.extra["held"] = true
+				w.s2c.hold = true
+			}
+			if w.s2c.hold && w.s.Now() >= hold {
+				w.s2c.hold = false
+				w.extra["releasedAt"] = w.s.Now()
+			}
+		}
+		sc.Monitors = append(sc.Monitors, monPrefix, monWindow, func(w *World) {
+			// Blocking behaviour while the ACKs are held.
+			if !w.s2c.hold {
+				return
+			}
+			cs := w.C.calls("send")
+			for i, c := range cs {
+				if i < n && c.Returned {
+					if c.End != c.Start {
+						w.fail("window/send-waited", "Send #%d (of the first N=%d) took %v of virtual time although the window had room", i, n, c.End-c.Start)
+					}
+					w.reached["first-N-nonblocking"] = i == n-1 || w.reached["first-N-nonblocking"]
+				}
+				if i >= n && c.Returned && c.Err == "" {
+					w.fail("window/send-not-blocked", "Send #%d returned while N=%d packets were outstanding and no acknowledgement had been delivered", i, n)
+				}
+				if i == n && !c.Returned {
+					w.reached["send-N+1-blocked"] = true
+				}
+			}
+		})
+		sc.Final = append(sc.Final, finalAllDelivered)
+		sc.Cfg.Horizon = 90 * time.Second
+		return sc
+	}
+}
+
+// ---------------------------------------------------------------- C14: chunks
+
+func init() {
+	// chunk: the client sends messages of the given lengths with a
+	// maximum chunk size; lens=a,b,c
+	builders["chunk"] = func(name string, p params) *Scenario {
+		sc := &Scenario{}
+		common(sc, p)
+		sc.MaxChunk = p.int("c", 2)
+		var lens []int
+		for _, l := range strings.Split(p["lens"], ",") {
+			n, err := strconv.Atoi(l)
+			if err != nil {
+				panic("bad lens in " + name)
+			}
+			lens = append(lens, n)
+		}
+		var ops []Op
+		for i, l := range lens {
+			ops = append(ops, Op{Kind: "send", Data: chunkPayload(i, l)})
+		}
+		sc.ClientScripts = [][]Op{ops}
+		sc.ServerScripts = [][]Op{recvs(len(lens))}
+		sc.Monitors = append(sc.Monitors, monPrefix)
+		sc.Final = append(sc.Final, finalAllDelivered)
+		sc.Cfg.Horizon = 40 * time.Second
+		sc.Cfg.DrainTime = 5 * time.Second
+		return sc
+	}
+	// chunkto: like chunk, with a receive (and optionally send) timeout
+	// that can expire inside a message; timed-out calls are retried.
+	builders["chunkto"] = func(name string, p params) *Scenario {
+		sc := builders["chunk"](name, p)
+		rt := p.dur("rt", 0)
+		st := p.dur("st", 0)
+		nmsg := len(sc.ClientScripts[0])
+		var rops []Op
+		if rt > 0 {
+			rops = append(rops, Op{Kind: "setrecv", D: rt})
+		}
+		for i := 0; i < nmsg; i++ {
+			rops = append(rops, Op{Kind: "recvretry"})
+		}
+		sc.ServerScripts = [][]Op{rops}
+		if st > 0 {
+			ops := []Op{{Kind: "setsend", D: st}}
+			for _, o := range sc.ClientScripts[0] {
+				o.Kind = "sendretry"
+				ops = append(ops, o)
+			}
+			sc.ClientScripts = [][]Op{ops}
+			// a full window is what makes a Send wait: hold the ACKs
+			holdUntil := p.dur("hold", 1500*time.Millisecond)
+			sc.PreActions = func(w *World) {
+				if w.handshakeDone() && w.extra["held"] == nil {
+					w.extra["held"] = true
+					w.s2c.hold = true
+				}
+				if w.s2c.hold && w.s.Now() >= holdUntil {
+					w.s2c.hold = false
+				}
+			}
+		}
+		sc.Faults = FaultCfg{Drop: false, Dup: false}
+		return sc
+	}
+}
+
+func chunkPayload(i, l int) []byte {
+	b := make([]byte, l)
+	for j := range b {
+		b[j] = byte('A' + (i*7+j)%26)
+		if j == 0 {
+			b[j] = byte('0' + i%10)
+		}
+	}
+	return b
 }
